@@ -31,8 +31,8 @@ func (h harnessError) Error() string { return "c07 seq harness: " + h.msg }
 type notApplicable struct{ why string }
 
 // inst is one fresh instance of a target.
-type inst struct {
-	t     *target
+type seqInst struct {
+	t     *seqTarget
 	v     avfs.VFS         // object under test (nil for identity-manager targets)
 	base  avfs.VFS         // where the tree is mutated (the base of a wrapper)
 	pfx   string           // prefix of the view's root inside base ("" | "/b" | "/d"), Unix form
@@ -45,9 +45,9 @@ type inst struct {
 }
 
 // bp maps a path of the view (Unix form) to the path on the base.
-func (in *inst) bp(p string) string { return in.t.d.px(in.pfx + p) }
+func (in *seqInst) bp(p string) string { return in.t.d.px(in.pfx + p) }
 
-func (in *inst) getOther() avfs.VFS {
+func (in *seqInst) getOther() avfs.VFS {
 	if in.other != nil {
 		return in.other
 	}
@@ -71,19 +71,19 @@ func (in *inst) getOther() avfs.VFS {
 }
 
 // target is one type under test.
-type target struct {
+type seqTarget struct {
 	Name    string // "MemFS", "RoFS(MemFS)", ..., "MemIdm"
 	OS      string // Linux | Windows
 	Kind    string // "vfs" | "idm"
-	d       *dom
-	build   func(t *target) *inst
+	d       *seqDom
+	build   func(t *seqTarget) *seqInst
 	GoSetup []string // Go statements producing vfs (and base, idm, usr)
 	// FileType is the short name of the File type handed out ("MemFile").
 	FileType string
 }
 
 // buildTree creates the harness tree below prefix pfx (Unix form) on v.
-func buildTree(v avfs.VFS, d *dom, pfx string, symlinks bool) {
+func buildTree(v avfs.VFS, d *seqDom, pfx string, symlinks bool) {
 	must := func(err error, what string) {
 		if err != nil {
 			panic(harnessError{fmt.Sprintf("tree %s on %s: %v", what, v.Type(), err)})
@@ -104,7 +104,7 @@ func buildTree(v avfs.VFS, d *dom, pfx string, symlinks bool) {
 	}
 }
 
-func goTree(d *dom, recv, pfx string, symlinks bool) []string {
+func goTree(d *seqDom, recv, pfx string, symlinks bool) []string {
 	var out []string
 	if pfx != "" {
 		out = append(out, fmt.Sprintf("_ = %s.Mkdir(%q, 0o755)", recv, d.px(pfx)))
@@ -124,7 +124,7 @@ func goTree(d *dom, recv, pfx string, symlinks bool) []string {
 	return out
 }
 
-func osType(d *dom) avfs.OSType {
+func osType(d *seqDom) avfs.OSType {
 	if d.win {
 		return avfs.OsWindows
 	}
@@ -132,7 +132,7 @@ func osType(d *dom) avfs.OSType {
 	return avfs.OsLinux
 }
 
-func osGo(d *dom) string {
+func osGo(d *seqDom) string {
 	if d.win {
 		return "avfs.OsWindows"
 	}
@@ -143,7 +143,7 @@ func osGo(d *dom) string {
 // newMem builds a MemFS with its own MemIdm (group grp, user usr), umask 022
 // and the harness tree below each of prefixes. The current directory is left
 // as the constructor leaves it.
-func newMem(d *dom, prefixes ...string) (*memfs.MemFS, *memidm.MemIdm, avfs.UserReader) {
+func newMem(d *seqDom, prefixes ...string) (*memfs.MemFS, *memidm.MemIdm, avfs.UserReader) {
 	idm := memidm.NewWithOptions(&memidm.Options{OSType: osType(d)})
 
 	if _, err := idm.AddGroup("grp"); err != nil {
@@ -165,7 +165,7 @@ func newMem(d *dom, prefixes ...string) (*memfs.MemFS, *memidm.MemIdm, avfs.User
 	return m, idm, usr
 }
 
-func goMem(d *dom, recv string, prefixes ...string) []string {
+func goMem(d *seqDom, recv string, prefixes ...string) []string {
 	out := []string{
 		fmt.Sprintf("idm := memidm.NewWithOptions(&memidm.Options{OSType: %s})", osGo(d)),
 		`_, _ = idm.AddGroup("grp")`,
@@ -181,7 +181,7 @@ func goMem(d *dom, recv string, prefixes ...string) []string {
 	return out
 }
 
-func newOrefa(d *dom, prefixes ...string) (*orefafs.OrefaFS, avfs.UserReader) {
+func newOrefa(d *seqDom, prefixes ...string) (*orefafs.OrefaFS, avfs.UserReader) {
 	o := orefafs.NewWithOptions(&orefafs.Options{OSType: osType(d)})
 	_ = o.SetUMask(0o022)
 
@@ -192,7 +192,7 @@ func newOrefa(d *dom, prefixes ...string) (*orefafs.OrefaFS, avfs.UserReader) {
 	return o, avfs.NewUser("usr", 1001, 1001)
 }
 
-func goOrefa(d *dom, recv string, prefixes ...string) []string {
+func goOrefa(d *seqDom, recv string, prefixes ...string) []string {
 	out := []string{
 		fmt.Sprintf("%s := orefafs.NewWithOptions(&orefafs.Options{OSType: %s})", recv, osGo(d)),
 		fmt.Sprintf("_ = %s.SetUMask(0o022)", recv),
@@ -210,51 +210,53 @@ func goOrefa(d *dom, recv string, prefixes ...string) []string {
 var nilFailFunc = func(avfs.VFSBase, avfs.FnVFS, *failfs.FailParam) error { return nil }
 
 // targets returns the types under test for one OS type.
-func targets(d *dom) []*target {
+func seqTargets(d *seqDom) []*seqTarget {
 	osn := "Linux"
 	if d.win {
 		osn = "Windows"
 	}
 
-	memInst := func(t *target, wrap func(m *memfs.MemFS) avfs.VFS, pfx string, prefixes ...string) *inst {
+	memInst := func(t *seqTarget, wrap func(m *memfs.MemFS) avfs.VFS, pfx string, prefixes ...string) *seqInst {
 		m, idm, usr := newMem(d, prefixes...)
-		in := &inst{t: t, base: m, idm: idm, admin: idm.AdminUser(), usr: usr, pfx: pfx}
+		in := &seqInst{t: t, base: m, idm: idm, admin: idm.AdminUser(), usr: usr, pfx: pfx}
 		in.v = wrap(m)
 
 		return in
 	}
 
-	oreInst := func(t *target, wrap func(o *orefafs.OrefaFS) avfs.VFS, pfx string, prefixes ...string) *inst {
+	oreInst := func(t *seqTarget, wrap func(o *orefafs.OrefaFS) avfs.VFS, pfx string, prefixes ...string) *seqInst {
 		o, usr := newOrefa(d, prefixes...)
-		in := &inst{t: t, base: o, idm: o.Idm(), admin: o.Idm().AdminUser(), usr: usr, pfx: pfx}
+		in := &seqInst{t: t, base: o, idm: o.Idm(), admin: o.Idm().AdminUser(), usr: usr, pfx: pfx}
 		in.v = wrap(o)
 
 		return in
 	}
 
-	ts := []*target{
+	ts := []*seqTarget{
 		{
 			Name: "MemFS", Kind: "vfs", FileType: "MemFile",
-			build:   func(t *target) *inst { return memInst(t, func(m *memfs.MemFS) avfs.VFS { return m }, "", "") },
+			build:   func(t *seqTarget) *seqInst { return memInst(t, func(m *memfs.MemFS) avfs.VFS { return m }, "", "") },
 			GoSetup: append(goMem(d, "vfs", ""), "base := vfs"),
 		},
 		{
 			Name: "OrefaFS", Kind: "vfs", FileType: "OrefaFile",
-			build:   func(t *target) *inst { return oreInst(t, func(o *orefafs.OrefaFS) avfs.VFS { return o }, "", "") },
+			build:   func(t *seqTarget) *seqInst { return oreInst(t, func(o *orefafs.OrefaFS) avfs.VFS { return o }, "", "") },
 			GoSetup: append(goOrefa(d, "vfs", ""), "base := vfs"),
 		},
 	}
 
 	if !d.win {
 		ts = append(ts,
-			&target{
+			&seqTarget{
 				Name: "RoFS(MemFS)", Kind: "vfs", FileType: "RoFile",
-				build:   func(t *target) *inst { return memInst(t, func(m *memfs.MemFS) avfs.VFS { return rofs.New(m) }, "", "") },
+				build: func(t *seqTarget) *seqInst {
+					return memInst(t, func(m *memfs.MemFS) avfs.VFS { return rofs.New(m) }, "", "")
+				},
 				GoSetup: append(goMem(d, "base", ""), "vfs := rofs.New(base)"),
 			},
-			&target{
+			&seqTarget{
 				Name: "RoFS(OrefaFS)", Kind: "vfs", FileType: "RoFile",
-				build: func(t *target) *inst {
+				build: func(t *seqTarget) *seqInst {
 					return oreInst(t, func(o *orefafs.OrefaFS) avfs.VFS { return rofs.New(o) }, "", "")
 				},
 				GoSetup: append(goOrefa(d, "base", ""), "vfs := rofs.New(base)"),
@@ -265,9 +267,9 @@ func targets(d *dom) []*target {
 	bpGo := fmt.Sprintf("_ = base.WriteFile(%q, []byte(\"xy\"), 0o644)", d.px("/b/f"))
 
 	ts = append(ts,
-		&target{
+		&seqTarget{
 			Name: "BasePathFS(MemFS)", Kind: "vfs", FileType: "BasePathFile",
-			build: func(t *target) *inst {
+			build: func(t *seqTarget) *seqInst {
 				return memInst(t, func(m *memfs.MemFS) avfs.VFS {
 					_ = m.WriteFile(d.px("/b/f"), []byte("xy"), 0o644)
 
@@ -276,9 +278,9 @@ func targets(d *dom) []*target {
 			},
 			GoSetup: append(goMem(d, "base", "", "/b"), bpGo, fmt.Sprintf("vfs := basepathfs.New(base, %q)", d.px("/b"))),
 		},
-		&target{
+		&seqTarget{
 			Name: "BasePathFS(OrefaFS)", Kind: "vfs", FileType: "BasePathFile",
-			build: func(t *target) *inst {
+			build: func(t *seqTarget) *seqInst {
 				return oreInst(t, func(o *orefafs.OrefaFS) avfs.VFS {
 					_ = o.WriteFile(d.px("/b/f"), []byte("xy"), 0o644)
 
@@ -291,16 +293,16 @@ func targets(d *dom) []*target {
 
 	if !d.win {
 		ts = append(ts,
-			&target{
+			&seqTarget{
 				Name: "FailFS(MemFS)", Kind: "vfs", FileType: "FailFile",
-				build: func(t *target) *inst {
+				build: func(t *seqTarget) *seqInst {
 					return memInst(t, func(m *memfs.MemFS) avfs.VFS { return failfs.New(m) }, "", "")
 				},
 				GoSetup: append(goMem(d, "base", ""), "vfs := failfs.New(base)"),
 			},
-			&target{
+			&seqTarget{
 				Name: "FailFS(MemFS,nilfunc)", Kind: "vfs", FileType: "FailFile",
-				build: func(t *target) *inst {
+				build: func(t *seqTarget) *seqInst {
 					return memInst(t, func(m *memfs.MemFS) avfs.VFS {
 						f := failfs.New(m)
 						_ = f.SetFailFunc(nilFailFunc)
@@ -311,9 +313,9 @@ func targets(d *dom) []*target {
 				GoSetup: append(goMem(d, "base", ""), "vfs := failfs.New(base)",
 					"_ = vfs.SetFailFunc(func(avfs.VFSBase, avfs.FnVFS, *failfs.FailParam) error { return nil })"),
 			},
-			&target{
+			&seqTarget{
 				Name: "FailFS(MemFS,readonly)", Kind: "vfs", FileType: "FailFile",
-				build: func(t *target) *inst {
+				build: func(t *seqTarget) *seqInst {
 					return memInst(t, func(m *memfs.MemFS) avfs.VFS {
 						f := failfs.New(m)
 						_ = f.SetFailFunc(failfs.ReadOnlyFunc)
@@ -323,9 +325,9 @@ func targets(d *dom) []*target {
 				},
 				GoSetup: append(goMem(d, "base", ""), "vfs := failfs.New(base)", "_ = vfs.SetFailFunc(failfs.ReadOnlyFunc)"),
 			},
-			&target{
+			&seqTarget{
 				Name: "MemFS.Sub(/d)", Kind: "vfs", FileType: "MemFile",
-				build: func(t *target) *inst {
+				build: func(t *seqTarget) *seqInst {
 					return memInst(t, func(m *memfs.MemFS) avfs.VFS {
 						s, err := m.Sub("/d")
 						if err != nil {
@@ -341,14 +343,14 @@ func targets(d *dom) []*target {
 	}
 
 	ts = append(ts,
-		&target{
+		&seqTarget{
 			Name: "MemIdm", Kind: "idm",
-			build: func(t *target) *inst {
+			build: func(t *seqTarget) *seqInst {
 				idm := memidm.NewWithOptions(&memidm.Options{OSType: osType(d)})
 				_, _ = idm.AddGroup("grp")
 				usr, _ := idm.AddUser("usr", "grp")
 
-				return &inst{t: t, idm: idm, admin: idm.AdminUser(), usr: usr}
+				return &seqInst{t: t, idm: idm, admin: idm.AdminUser(), usr: usr}
 			},
 			GoSetup: []string{
 				fmt.Sprintf("idm := memidm.NewWithOptions(&memidm.Options{OSType: %s})", osGo(d)),
@@ -358,12 +360,12 @@ func targets(d *dom) []*target {
 	)
 
 	if !d.win {
-		ts = append(ts, &target{
+		ts = append(ts, &seqTarget{
 			Name: "DummyIdm", Kind: "idm",
-			build: func(t *target) *inst {
+			build: func(t *seqTarget) *seqInst {
 				idm := avfs.NotImplementedIdm
 
-				return &inst{t: t, idm: idm, admin: idm.AdminUser(), usr: avfs.NewUser("usr", 1001, 1001)}
+				return &seqInst{t: t, idm: idm, admin: idm.AdminUser(), usr: avfs.NewUser("usr", 1001, 1001)}
 			},
 			GoSetup: []string{"idm := avfs.NotImplementedIdm", `usr := avfs.NewUser("usr", 1001, 1001)`},
 		})
@@ -378,12 +380,13 @@ func targets(d *dom) []*target {
 }
 
 // newInst builds a fresh instance of t (state "initial").
-func (t *target) newInst() *inst {
+func (t *seqTarget) newInst() *seqInst {
 	in := t.build(t)
 
 	if in.v != nil {
-		// FileInfo values of this instance, taken before any mutator runs.
-		_, _ = fsx.Guard(func() {
+		// FileInfo values of this instance, taken before any mutator runs. If
+		// that panics the instance may hold locks: start over without them.
+		k, _ := fsx.Guard(func() {
 			if fi, err := in.v.Stat(t.d.px("/a/f")); err == nil {
 				in.infoF = fi
 			}
@@ -392,106 +395,112 @@ func (t *target) newInst() *inst {
 				in.infoD = fi
 			}
 		})
+
+		if k != "" {
+			in = t.build(t)
+		}
 	}
 
 	return in
 }
 
 // mutator is one letter of the alphabet producing pre-states.
-type mutator struct {
+type seqMutator struct {
 	Name     string // state class
 	Show     string
 	Thorough bool // used only in the thorough tier
 	Idm      bool // applies to identity-manager targets (others: VFS targets)
-	do       func(in *inst) error
-	Go       func(in *inst) string
+	do       func(in *seqInst) error
+	Go       func(in *seqInst) string
 }
 
-var mutators = []mutator{
+var seqMutators = []seqMutator{
 	{
 		Name: "after-chdir-root", Show: `vfs.Chdir("/")`,
-		do: func(in *inst) error { return in.v.Chdir(in.t.d.px("/")) },
-		Go: func(in *inst) string { return fmt.Sprintf("_ = vfs.Chdir(%q)", in.t.d.px("/")) },
+		do: func(in *seqInst) error { return in.v.Chdir(in.t.d.px("/")) },
+		Go: func(in *seqInst) string { return fmt.Sprintf("_ = vfs.Chdir(%q)", in.t.d.px("/")) },
 	},
 	{
 		Name: "after-chdir-a", Show: `vfs.Chdir("/a")`,
-		do: func(in *inst) error { return in.v.Chdir(in.t.d.px("/a")) },
-		Go: func(in *inst) string { return fmt.Sprintf("_ = vfs.Chdir(%q)", in.t.d.px("/a")) },
+		do: func(in *seqInst) error { return in.v.Chdir(in.t.d.px("/a")) },
+		Go: func(in *seqInst) string { return fmt.Sprintf("_ = vfs.Chdir(%q)", in.t.d.px("/a")) },
 	},
 	{
 		Name: "after-remove-f", Show: `base.Remove("/a/f")`,
-		do: func(in *inst) error { return in.base.Remove(in.bp("/a/f")) },
-		Go: func(in *inst) string { return fmt.Sprintf("_ = base.Remove(%q)", in.bp("/a/f")) },
+		do: func(in *seqInst) error { return in.base.Remove(in.bp("/a/f")) },
+		Go: func(in *seqInst) string { return fmt.Sprintf("_ = base.Remove(%q)", in.bp("/a/f")) },
 	},
 	{
 		Name: "a-mode-0", Show: `base.Chmod("/a", 0)`,
-		do: func(in *inst) error { return in.base.Chmod(in.bp("/a"), 0) },
-		Go: func(in *inst) string { return fmt.Sprintf("_ = base.Chmod(%q, 0)", in.bp("/a")) },
+		do: func(in *seqInst) error { return in.base.Chmod(in.bp("/a"), 0) },
+		Go: func(in *seqInst) string { return fmt.Sprintf("_ = base.Chmod(%q, 0)", in.bp("/a")) },
 	},
 	{
 		Name: "nonadmin", Show: `vfs.SetUser(usr)`,
-		do: func(in *inst) error { return in.v.SetUser(in.usr) },
-		Go: func(*inst) string { return "_ = vfs.SetUser(usr)" },
+		do: func(in *seqInst) error { return in.v.SetUser(in.usr) },
+		Go: func(*seqInst) string { return "_ = vfs.SetUser(usr)" },
 	},
 	{
 		Name: "dir-symlink-cycle", Show: `base.Symlink("/a", "/a/d/up")`,
-		do: func(in *inst) error { return in.base.Symlink(in.bp("/a"), in.bp("/a/d/up")) },
-		Go: func(in *inst) string { return fmt.Sprintf("_ = base.Symlink(%q, %q)", in.bp("/a"), in.bp("/a/d/up")) },
+		do: func(in *seqInst) error { return in.base.Symlink(in.bp("/a"), in.bp("/a/d/up")) },
+		Go: func(in *seqInst) string {
+			return fmt.Sprintf("_ = base.Symlink(%q, %q)", in.bp("/a"), in.bp("/a/d/up"))
+		},
 	},
 	{
 		Name: "after-chdir-d", Show: `vfs.Chdir("/a/d")`, Thorough: true,
-		do: func(in *inst) error { return in.v.Chdir(in.t.d.px("/a/d")) },
-		Go: func(in *inst) string { return fmt.Sprintf("_ = vfs.Chdir(%q)", in.t.d.px("/a/d")) },
+		do: func(in *seqInst) error { return in.v.Chdir(in.t.d.px("/a/d")) },
+		Go: func(in *seqInst) string { return fmt.Sprintf("_ = vfs.Chdir(%q)", in.t.d.px("/a/d")) },
 	},
 	{
 		Name: "after-remove-d", Show: `base.Remove("/a/d")`, Thorough: true,
-		do: func(in *inst) error { return in.base.Remove(in.bp("/a/d")) },
-		Go: func(in *inst) string { return fmt.Sprintf("_ = base.Remove(%q)", in.bp("/a/d")) },
+		do: func(in *seqInst) error { return in.base.Remove(in.bp("/a/d")) },
+		Go: func(in *seqInst) string { return fmt.Sprintf("_ = base.Remove(%q)", in.bp("/a/d")) },
 	},
 	{
 		Name: "umask-777", Show: `vfs.SetUMask(0o777)`, Thorough: true,
-		do: func(in *inst) error { return in.v.SetUMask(0o777) },
-		Go: func(*inst) string { return "_ = vfs.SetUMask(0o777)" },
+		do: func(in *seqInst) error { return in.v.SetUMask(0o777) },
+		Go: func(*seqInst) string { return "_ = vfs.SetUMask(0o777)" },
 	},
 	{
 		Name: "after-adduser", Show: `idm.AddUser("u2","grp")`, Idm: true,
-		do: func(in *inst) error { _, err := in.idm.AddUser("u2", "grp"); return err },
-		Go: func(*inst) string { return `_, _ = idm.AddUser("u2", "grp")` },
+		do: func(in *seqInst) error { _, err := in.idm.AddUser("u2", "grp"); return err },
+		Go: func(*seqInst) string { return `_, _ = idm.AddUser("u2", "grp")` },
 	},
 	{
 		Name: "after-deluser", Show: `idm.DelUser("usr")`, Idm: true,
-		do: func(in *inst) error { return in.idm.DelUser("usr") },
-		Go: func(*inst) string { return `_ = idm.DelUser("usr")` },
+		do: func(in *seqInst) error { return in.idm.DelUser("usr") },
+		Go: func(*seqInst) string { return `_ = idm.DelUser("usr")` },
 	},
 	{
 		Name: "after-delgroup", Show: `idm.DelGroup("grp")`, Idm: true,
-		do: func(in *inst) error { return in.idm.DelGroup("grp") },
-		Go: func(*inst) string { return `_ = idm.DelGroup("grp")` },
+		do: func(in *seqInst) error { return in.idm.DelGroup("grp") },
+		Go: func(*seqInst) string { return `_ = idm.DelGroup("grp")` },
 	},
 }
 
 // state is a sequence of mutator indices applied to a fresh instance.
-type state struct {
+type seqState struct {
 	Muts []int
 }
 
-func (s state) class() string {
+func (s seqState) class() string {
 	if len(s.Muts) == 0 {
 		return "initial"
 	}
 
 	var n []string
 	for _, m := range s.Muts {
-		n = append(n, mutators[m].Name)
+		n = append(n, seqMutators[m].Name)
 	}
 
 	return strings.Join(n, "+")
 }
 
-func (s state) show() []string {
+func (s seqState) show() []string {
 	var n []string
 	for _, m := range s.Muts {
-		n = append(n, mutators[m].Show)
+		n = append(n, seqMutators[m].Show)
 	}
 
 	return n
@@ -499,11 +508,11 @@ func (s state) show() []string {
 
 // apply runs the mutators; ok is false when one of them fails, panics or
 // deadlocks (the state is then not part of the plan).
-func (s state) apply(in *inst) (ok bool) {
+func (s seqState) apply(in *seqInst) (ok bool) {
 	for _, m := range s.Muts {
 		var err error
 
-		if k, _ := fsx.Guard(func() { err = mutators[m].do(in) }); k != "" || err != nil {
+		if k, _ := fsx.Guard(func() { err = seqMutators[m].do(in) }); k != "" || err != nil {
 			return false
 		}
 	}
@@ -513,7 +522,7 @@ func (s state) apply(in *inst) (ok bool) {
 
 // key identifies the reached state: tree below the harness directories, cwd,
 // user, umask - everything a later call can observe.
-func stateKey(in *inst) string {
+func seqStateKey(in *seqInst) string {
 	var b strings.Builder
 
 	if in.v == nil {
@@ -552,10 +561,10 @@ func stateKey(in *inst) string {
 
 // states enumerates the distinct pre-states of t reachable by at most depth
 // mutators (shortest sequence first).
-func (t *target) states(depth int, thorough bool) []state {
+func (t *seqTarget) states(depth int, thorough bool) []seqState {
 	var alpha []int
 
-	for i, m := range mutators {
+	for i, m := range seqMutators {
 		if m.Idm != (t.Kind == "idm") || (m.Thorough && !thorough) {
 			continue
 		}
@@ -563,27 +572,27 @@ func (t *target) states(depth int, thorough bool) []state {
 		alpha = append(alpha, i)
 	}
 
-	out := []state{{}}
+	out := []seqState{{}}
 	seen := map[string]bool{}
 
 	in := t.newInst()
-	seen[stateKey(in)] = true
+	seen[seqStateKey(in)] = true
 
-	frontier := []state{{}}
+	frontier := []seqState{{}}
 
 	for d := 1; d <= depth; d++ {
-		var next []state
+		var next []seqState
 
 		for _, s := range frontier {
 			for _, m := range alpha {
-				ns := state{Muts: append(append([]int{}, s.Muts...), m)}
+				ns := seqState{Muts: append(append([]int{}, s.Muts...), m)}
 
 				in := t.newInst()
 				if !ns.apply(in) {
 					continue
 				}
 
-				k := stateKey(in)
+				k := seqStateKey(in)
 				if seen[k] {
 					continue
 				}
